@@ -60,3 +60,54 @@ pub open spec fn asset_balance(q: QuerierWrapper, i: AssetInfo, who: Addr) -> Op
     }
 }
 pub open spec fn same_asset(a: AssetInfo, b: AssetInfo) -> bool { (a is Token) == (b is Token) && info_id(a) == info_id(b) }
+/// first_coin / ledger_amount characterised by position (used by the D17 loop invariants of the real lookups)
+pub proof fn lemma_first_coin_at(funds: Seq<Coin>, denom: Seq<char>, i: int)
+    requires 0 <= i < funds.len(), funds[i].denom@ == denom, forall|j: int| 0 <= j < i ==> (#[trigger] funds[j]).denom@ != denom
+    ensures first_coin(funds, denom) == Some(funds[i])
+    decreases i
+{
+    if i > 0 {
+        let t = funds.drop_first();
+        assert(funds[0].denom@ != denom);
+        assert forall|j: int| 0 <= j < i - 1 implies (#[trigger] t[j]).denom@ != denom by { assert(t[j] == funds[j + 1]); }
+        assert(t[i - 1] == funds[i]);
+        lemma_first_coin_at(t, denom, i - 1);
+    }
+}
+pub proof fn lemma_first_coin_none(funds: Seq<Coin>, denom: Seq<char>)
+    requires forall|j: int| 0 <= j < funds.len() ==> (#[trigger] funds[j]).denom@ != denom
+    ensures first_coin(funds, denom) is None
+    decreases funds.len()
+{
+    if funds.len() > 0 {
+        let t = funds.drop_first();
+        assert(funds[0].denom@ != denom);
+        assert forall|j: int| 0 <= j < t.len() implies (#[trigger] t[j]).denom@ != denom by { assert(t[j] == funds[j + 1]); }
+        lemma_first_coin_none(t, denom);
+    }
+}
+pub proof fn lemma_ledger_amount_at(l: Seq<Asset>, id: Seq<char>, i: int)
+    requires 0 <= i < l.len(), info_id(l[i].info) == id, forall|j: int| 0 <= j < i ==> info_id((#[trigger] l[j]).info) != id
+    ensures ledger_amount(l, id) == l[i].amount@
+    decreases i
+{
+    if i > 0 {
+        let t = l.drop_first();
+        assert(info_id(l[0].info) != id);
+        assert forall|j: int| 0 <= j < i - 1 implies info_id((#[trigger] t[j]).info) != id by { assert(t[j] == l[j + 1]); }
+        assert(t[i - 1] == l[i]);
+        lemma_ledger_amount_at(t, id, i - 1);
+    }
+}
+pub proof fn lemma_ledger_amount_none(l: Seq<Asset>, id: Seq<char>)
+    requires forall|j: int| 0 <= j < l.len() ==> info_id((#[trigger] l[j]).info) != id
+    ensures ledger_amount(l, id) == 0
+    decreases l.len()
+{
+    if l.len() > 0 {
+        let t = l.drop_first();
+        assert(info_id(l[0].info) != id);
+        assert forall|j: int| 0 <= j < t.len() implies info_id((#[trigger] t[j]).info) != id by { assert(t[j] == l[j + 1]); }
+        lemma_ledger_amount_none(t, id);
+    }
+}
